@@ -32,7 +32,7 @@ EVIDENCE = os.path.join(ALT or ROOT, "evidence")
 REPLAYS = os.path.join(ALT or ROOT, "replays")
 CORPUS = os.path.join(ROOT, "corpus")
 GUARD = "barter_rs_barter_rs_verif"
-NPROC = min(16, os.cpu_count() or 4)
+NPROC = min(int(os.environ.get("VERIF_NPROC", "16")), os.cpu_count() or 4)
 SHARD = 300
 SHARD_BYTES = 150000
 
